@@ -20,6 +20,7 @@ CONSTANTS
   HandlerIds = {}
   Kinds = {"sgn", "path"}
   Keys = {1}
+  BadKeys = {}
   SrcOpts <- Opts_lowprio
   EvKinds = {"sgn", "path"}
   MaxBatch = 2
